@@ -391,6 +391,13 @@ inductive PutErr
   | underfoot   -- "file content changed underfoot"
 deriving DecidableEq, Repr
 
+/-- what the reuse branch of `copyFile` does to the existing data file before returning (regenerated:
+0 = nothing, 1 = `c.used(name)`, 2 = `os.Chtimes(name, now, now)`). -/
+def refreshReused (fs : FS) (now : Int) (name : Bytes) : FS :=
+  if Gen.Cache.copyReuseRefresh = 1 then used fs now name
+  else if Gen.Cache.copyReuseRefresh = 2 then chtimes fs name now
+  else fs
+
 /-- `c.copyFile(file, out, size)` with a reader that delivers `data` on every pass and no I/O error. -/
 def copyFile (H : Bytes → Hash) (fs : FS) (now : Int) (data : Bytes) (out : Hash) (size : Int) : Except PutErr Unit × FS :=
   let name := fileName out keyD
@@ -402,7 +409,7 @@ def copyFile (H : Bytes → Hash) (fs : FS) (now : Int) (data : Bytes) (out : Ha
   let reuse : Bool := match info with
     | some f => Gen.Cache.copyCheckExisting statOk infoSize size && Gen.Cache.copyReuse out (H f.data)
     | none => false
-  if reuse then (.ok (), fs) else
+  if reuse then (.ok (), refreshReused fs now name) else
   -- os.OpenFile(name, O_RDWR|O_CREATE [|O_TRUNC], 0666)
   let opened : File := match info with
     | some f => if Gen.Cache.copyTrunc statOk infoSize size then ⟨[], now⟩ else f
